@@ -4,6 +4,7 @@ go 1.23.2
 
 require (
 	github.com/google/go-cmp v0.6.0
+	golang.org/x/exp v0.0.0-20240409090435-93d18d7e34b8
 	golang.org/x/image v0.18.0
 	golang.org/x/text v0.16.0
 	seehuhn.de/go/geom v0.0.0-20250115091222-3cab61c7096a
@@ -11,9 +12,6 @@ require (
 	seehuhn.de/go/sfnt v0.0.0
 )
 
-require (
-	golang.org/x/exp v0.0.0-20240409090435-93d18d7e34b8 // indirect
-	seehuhn.de/go/dijkstra v0.9.3 // indirect
-)
+require seehuhn.de/go/dijkstra v0.9.3 // indirect
 
 replace seehuhn.de/go/sfnt => /repo
